@@ -1,19 +1,16 @@
 /-
-  Model/Nifti.lean — NIfTI geometry as deepali reads / writes it through nibabel.
-  src: src/deepali/utils/imageio/nifti.py  read_nifti_image @28-95, write_nifti_image @98-121
+  Model/Nifti.lean — NIfTI geometry and data layout as deepali reads / writes it through nibabel.
+  src: src/deepali/utils/imageio/nifti.py  read_nifti_image @28-100, write_nifti_image @103-138
+       (after the `fix:` commits 5ccdadc and 91f545a)
        src/deepali/data/flow.py  FlowField.write @537-541, read @524-535, sitk @518-522,
-       from_sitk @505-516 (vectors are stored w.r.t. world axes).
+       from_sitk @505-516 (vectors are stored w.r.t. world axes; conversion = Grid.transformVectors).
 
   Core Lean only.  nibabel itself (header packing, `pixdim` = column norms of the affine, data
   scaling, gzip) is trusted; the model covers what deepali does around it: the 4×4 affine with the
   LPS↔RAS sign flips, the division by the voxel sizes, the clamping of tiny values, the choice of
-  the number of spatial dimensions, the squeeze of unused dimensions by intent code, the reversal
-  of the axes and the leading channel axis.
-
-  The model follows the code AS IT STANDS: `write_nifti_image` hands nibabel the D×D matrix
-  `grid.affine()` (F-18a), and the vector-intent squeeze keeps `data.shape[5:]` although the
-  components live on axis 4 (F-18d).  `writeAffineFixed` / `readShape (fixed := true)` are the
-  repairs proposed in FINDINGS_C18.md.
+  the number of spatial dimensions, the layout of scalar (`X×Y[×Z]`) and vector (`X×Y×Z×1×C`,
+  intent VECTOR) data, the squeeze of unused dimensions by intent code, the reversal of the axes
+  and the leading channel axis.
 -/
 import Deepali.Model.Grid
 import Deepali.Model.MetaImage
@@ -23,22 +20,12 @@ open Deepali Deepali.MetaIO
 section
 variable {α : Type} [Add α] [Sub α] [Mul α] [Div α] [Neg α] [NatCast α] [IntCast α]
 
-/-- `affine[:2] *= -1` (nifti.py @117) / `origin[:2] *= -1`, `direction[:2] *= -1` (@52-53):
+/-- `affine[:2] *= -1` (nifti.py @131) / `origin[:2] *= -1`, `direction[:2] *= -1` (@62-63):
     negate the first two rows — the LPS ↔ RAS change of world axes. -/
 def flipRows {n m : Nat} (A : Fin n → Fin m → α) : Fin n → Fin m → α :=
   fun i j => if i.val < 2 then - A i j else A i j
 
 def flipVec {n : Nat} (x : Fin n → α) : Fin n → α := fun i => if i.val < 2 then - x i else x i
-
-/-- nibabel `Nifti1Image(dataobj, affine)`: "Affine should be shape 4,4". -/
-def nibabelAcceptsAffine (rows cols : Nat) : Bool := rows = 4 ∧ cols = 4
-
-/-- nifti.py `write_nifti_image` @116-120: `affine = grid.affine()` is the D×D matrix
-    `direction · diag(spacing)`; its first two rows are negated and it is passed to nibabel,
-    which rejects every shape other than 4×4. Returns the matrix handed over, or the error. -/
-def writeAffine {d : Nat} (g : Grid d α) : Except IOErr (Mat d α) :=
-  let A := flipRows g.affine
-  if nibabelAcceptsAffine d d then .ok A else .error .value
 
 end
 
@@ -46,9 +33,9 @@ section
 variable {α : Type} [Add α] [Sub α] [Mul α] [Div α] [Neg α] [NatCast α] [IntCast α]
   [HasFloor α] [DecidableEq α] [LT α] [DecidableRel (α := α) (· < ·)]
 
-/-- proposed repair of @116-117: the homogeneous 4×4 index→world matrix
-    `[direction·diag(spacing) | origin; 0 1]` padded with the identity for D < 3, rows 0,1 negated. -/
-def writeAffineFixed {d : Nat} (g : Grid d α) : Mat 4 α :=
+/-- write_nifti_image @128-131: the homogeneous 4×4 index→world matrix
+    `[direction·diag(spacing) | origin; 0 1]` (identity padding for D < 3), rows 0,1 negated. -/
+def writeAffine {d : Nat} (g : Grid d α) : Mat 4 α :=
   let zero : α := ((0 : Nat) : α)
   let one : α := ((1 : Nat) : α)
   let A := g.affine
@@ -60,28 +47,44 @@ def writeAffineFixed {d : Nat} (g : Grid d α) : Mat 4 α :=
     else if i = j then one else zero
   flipRows M
 
-/-- `x[np.abs(x) < epsilon] = 0` @55-57 with `epsilon = sys.float_info.epsilon = 2⁻⁵²`. -/
+/-- `x[np.abs(x) < epsilon] = 0` @65-67 with `epsilon = sys.float_info.epsilon = 2⁻⁵²`. -/
 def clampSmall (x : α) : α :=
   let zero : α := ((0 : Nat) : α)
   let eps : α := ((1 : Nat) : α) / ((4503599627370496 : Nat) : α)
   let a := if x < zero then - x else x
   if a < eps then zero else x
 
-/-- @49, @52, @56: `origin = affine[:D, 3]`, first two entries negated, tiny values clamped. -/
+/-- @59, @62, @66: `origin = affine[:D, 3]`, first two entries negated, tiny values clamped. -/
 def readOrigin (d : Nat) (hd : d ≤ 3) (A : Mat 4 α) : Vec d α :=
   fun i => clampSmall (flipVec (fun i : Fin d => A ⟨i.val, by omega⟩ 3) i)
 
-/-- @50, @53, @57: `direction = affine[:D, :D] / spacing` (numpy broadcasting: column j is
+/-- @60, @63, @67: `direction = affine[:D, :D] / spacing` (numpy broadcasting: column j is
     divided by `pixdim[j+1]`), first two rows negated, tiny values clamped. -/
 def readDirection (d : Nat) (hd : d ≤ 3) (A : Mat 4 α) (pixdim : Vec d α) : Mat d α :=
   fun i j => clampSmall (flipRows (fun i j : Fin d => A ⟨i.val, by omega⟩ ⟨j.val, by omega⟩ / pixdim j) i j)
 
 end
 
-/-- intent codes NIFTI_INTENT_SYMMATRIX / DISPVECT / VECTOR @68. -/
+/-! ### data layout -/
+
+/-- write_nifti_image @119-126 on a shape (`unit = 1`) or a multi-index (`unit = 0`) in tensor
+    order `(C, …, X)`: reversal of all axes; one channel (`c = 1`): the channel axis is dropped
+    (`dataobj[..., 0]`); several: `shape[:D] + (unit,)*(4−D) + shape[D:]`. -/
+def toNiftiOrder (unit c d : Nat) (l : List Nat) : List Nat :=
+  let r := l.reverse
+  if c = 1 then r.dropLast else r.take d ++ List.replicate (4 - d) unit ++ r.drop d
+
+/-- @132-134: intent code written: NIFTI_INTENT_VECTOR (1007) when `dataobj.ndim > 4`, else 0. -/
+def writeIntent (shape : List Nat) : Nat := if 4 < shape.length then 1007 else 0
+
+/-- nibabel: header `dim[0..7]` of an array of shape `shape` (unused entries are 1). -/
+def headerDim (shape : List Nat) : List Nat :=
+  shape.length :: (shape ++ List.replicate (7 - shape.length) 1)
+
+/-- intent codes NIFTI_INTENT_SYMMATRIX / DISPVECT / VECTOR @46, @77. -/
 def vectorIntent (intent : Nat) : Bool := intent = 1005 ∨ intent = 1006 ∨ intent = 1007
 
-/-- @67-84: number of leading data axes kept (`realdim`), by intent code.
+/-- @46-52 / @86-88: number of leading data axes kept (`realdim`), by intent code.
     `dim` = header `dim[0..7]` (so `dim[0] = ndim`). -/
 def realDim (dim : List Nat) (intent : Nat) : Except IOErr Nat :=
   let ndim := dim.getD 0 0
@@ -97,11 +100,10 @@ def realDim (dim : List Nat) (intent : Nat) : Except IOErr Nat :=
       | fuel + 1 => if 3 < r ∧ dim.getD r 0 = 1 then go fuel (r - 1) else r
     .ok (go 8 ndim)
 
-/-- number of grid dimensions @44-45: `D = min(ndim, 3)`; with the proposed repair a vector
-    image has `D = min(realdim, 3)` (ITK stores a 2-D vector image as `X×Y×1×1×C`). -/
-def gridDim (fixed : Bool) (dim : List Nat) (intent : Nat) : Nat :=
+/-- number of grid dimensions @46-55: `min(realdim, 3)` for vector intents, else `min(ndim, 3)`. -/
+def gridDim (dim : List Nat) (intent : Nat) : Nat :=
   let ndim := dim.getD 0 0
-  if fixed ∧ vectorIntent intent then
+  if vectorIntent intent then
     match realDim dim intent with
     | .ok r => min r 3
     | .error _ => min ndim 3
@@ -109,18 +111,23 @@ def gridDim (fixed : Bool) (dim : List Nat) (intent : Nat) : Nat :=
 
 def prod (l : List Nat) : Nat := l.foldl (· * ·) 1
 
-/-- @84-90: tensor shape from the nibabel array shape `dim[1..ndim]`:
-    `reshape(shape[:realdim] + shape[k:])` with `k = 5` in the code (repair: 4 for vector intents,
-    where the components are), reversal of all axes, leading channel axis when
-    `data.ndim == grid.ndim`. -/
-def readShape (fixed : Bool) (dim : List Nat) (intent : Nat) : Except IOErr (List Nat) := do
+/-- @79 / @89, @91, @94-95 on a shape (`unit = 1`) or multi-index (`unit = 0`) in nibabel order:
+    keep `l[:r] + l[k:]`, reverse all axes, add the leading channel axis when the rank equals
+    the grid's. -/
+def fromNiftiOrder (unit r k gd : Nat) (l : List Nat) : List Nat :=
+  let t := (l.take r ++ l.drop k).reverse
+  if t.length = gd then unit :: t else t
+
+/-- first kept trailing axis: 4 for vector intents (@79), 5 otherwise (@89). -/
+def keepFrom (intent : Nat) : Nat := if vectorIntent intent then 4 else 5
+
+/-- @77-95: tensor shape from the nibabel array shape `dim[1..ndim]`, or the exception. -/
+def readShape (dim : List Nat) (intent : Nat) : Except IOErr (List Nat) := do
   let ndim := dim.getD 0 0
   let shape := (dim.drop 1).take ndim
   let r ← realDim dim intent
-  let k := if fixed ∧ vectorIntent intent then 4 else 5
-  let newShape := shape.take r ++ shape.drop k
-  if prod newShape ≠ prod shape then throw IOErr.value            -- numpy: cannot reshape
-  let t := newShape.reverse
-  pure (if t.length = gridDim fixed dim intent then 1 :: t else t)
+  let k := keepFrom intent
+  if prod (shape.take r ++ shape.drop k) ≠ prod shape then throw IOErr.value     -- numpy: cannot reshape
+  pure (fromNiftiOrder 1 r k (gridDim dim intent) shape)
 
 end Deepali.Nifti
